@@ -472,7 +472,11 @@ func (s *sim) didChange() {
 	if s.src.Intn(5, "c18.multichange") == 4 {
 		nch = 2 + s.src.Intn(2, "c18.nch")
 	}
-	var changes []any
+	if m != nil && s.src.Intn(40, "c18.nochange") == 39 {
+		nch = 0 // an empty list of changes: legal, the text stays as it is
+		s.r.Faults["change.empty-list"]++
+	}
+	changes := []any{}
 	class := ""
 	for i := 0; i < nch; i++ {
 		if s.src.Intn(5, "c18.full") == 4 || m == nil {
